@@ -6,6 +6,7 @@ import (
 	"fmt"
 	"math"
 	"sort"
+	"strconv"
 
 	"github.com/creachadair/mds/slice"
 	"verif/harness/fw"
@@ -21,13 +22,13 @@ func init() {
 		ID: "C17",
 		Meta: func(tier string) fw.Meta {
 			return fw.Meta{
-				Flavours: []string{"plain", "cover"},
+				Flavours: []string{"plain", "cover", "386"},
 				Blocks:   16,
 				Procs:    16,
-				Rule: "exhaustive enumeration: Partition: every keep/drop mask for n <= 16 (20 thorough), on exact-size slices and on windows of a larger guard-filled buffer; Rotate: every n <= 400 (1300) and every k in [-n-2, n+2] plus far out-of-range k; every function with counts/offsets near the ends of the int range (MaxInt, MaxInt-1, 2^62, 2^31, MinInt) and far out of range with low 8..62 bits that look like a valid value (m*2^w + d); Chunks/Batches: every len <= 40 (96) x every n in [-1, len+3], on windows with spare capacity; Head/Tail: every len <= 12 x n in [0, len+3]; Stripe: row-length vectors over {0..3}^<=4 x i in [0,4]; At/PtrAt: every len <= 12 x i in [-len-3, len+3]; (thorough only) Rotate of a []byte of 2^31+17 elements by -1 and by 2^31-3; Rotate/Partition/Chunks/Batches instantiated with 15 ordinary element types of every width (byte, named byte slice, int8, bool, uint16, rune, uint32, int, uint64, float32, float64, string, small arrays, interface) on slices of 0..9000 elements around 256, 512, 1024 and 4096 with shifts around 0, n/2, 256, 512 and n. " +
+				Rule: "exhaustive enumeration: Partition: every keep/drop mask for n <= 16 (20 thorough), on exact-size slices and on windows of a larger guard-filled buffer; Rotate: every n <= 400 (1300) and every k in [-n-2, n+2] plus far out-of-range k; every function with counts/offsets near the ends of the int range (MaxInt, MaxInt-1, 2^62, 2^31, MinInt) and far out of range with low 8..62 bits that look like a valid value (m*2^w + d); Chunks/Batches: every len <= 40 (96) x every n in [-1, len+3], on windows with spare capacity; Head/Tail: every len <= 12 x n in [0, len+3]; Stripe: row-length vectors over {0..3}^<=4 x i in [0,4]; At/PtrAt: every len <= 12 x i in [-len-3, len+3]; Rotate of slices of 8..64 MiB (ints, uint32s, 64-byte structs) by shifts of both signs; (thorough only) Rotate of a []byte of 2^31+17 elements by -1 and by 2^31-3; Rotate/Partition/Chunks/Batches instantiated with 15 ordinary element types of every width (byte, named byte slice, int8, bool, uint16, rune, uint32, int, uint64, float32, float64, string, small arrays, interface) on slices of 0..9000 elements around 256, 512, 1024 and 4096 with shifts around 0, n/2, 256, 512 and n. " +
 					"Oracles: stable filter + permutation + append-does-not-clobber for Partition; element i moves to (i+k) mod n and out-of-range k panics for Rotate; concatenation by address, documented lengths/counts, append-does-not-clobber-a-later-subslice, no panic for allowed arguments (incl. empty slice) for Chunks/Batches; direct indexing for the rest. " +
 					"distinct = enumerated argument tuples; non-trivial = the call had a non-empty slice argument",
-				Required:     []string{"partition_masks", "rotate_cases", "chunks_cases", "batches_cases", "batches_of_empty", "head_tail_cases", "stripe_cases", "at_ptrat_cases", "expected_panics_seen", "extreme_argument_cases", "element_type_checks", "typed_rotate_cases", "typed_partition_cases", "typed_element_sweeps"},
+				Required:     []string{"partition_masks", "rotate_cases", "chunks_cases", "batches_cases", "batches_of_empty", "head_tail_cases", "stripe_cases", "at_ptrat_cases", "expected_panics_seen", "extreme_argument_cases", "element_type_checks", "typed_rotate_cases", "typed_partition_cases", "typed_element_sweeps", "very_large_slice_rotations"},
 				Exhaustive:   true,
 				Assumptions:  []string{"'capacity-clipped' is read as: appending to a returned subslice cannot overwrite an element outside it (so a single whole-input chunk may keep the input's capacity)"},
 				CoverPkgs:    []string{"github.com/creachadair/mds/slice"},
@@ -559,7 +560,64 @@ func runC17(c *fw.Ctx) {
 		})
 		c.Add("typed_element_sweeps", 15)
 	}
-	if c.Thorough() && c.Block < 2 && c.Begin(idx+90+c.Block) {
+	if c.Block < 8 && strconv.IntSize == 64 && c.Begin(idx+80+c.Block) {
+		// very large slices (8 .. 64 MiB): ints, bytes, 64-byte structs; shifts of both signs
+		type wide struct {
+			ID  int
+			Pad [7]int64
+		}
+		rotate := func(name string, n int, rot func(k int), at func(i int) int) bool {
+			for _, k := range []int{-1, 1, -(n / 2), n/2 + 1, -(n - 7), n - 3, -5, 4099} {
+				rot(k) // the checks below undo nothing: shifts accumulate
+			}
+			total := 0
+			for _, k := range []int{-1, 1, -(n / 2), n/2 + 1, -(n - 7), n - 3, -5, 4099} {
+				total += k
+			}
+			kk := ((total % n) + n) % n
+			for i := 0; i < n; i += 1 + i/64 {
+				to := i + kk
+				if to >= n {
+					to -= n
+				}
+				if at(to) != i {
+					c.Fail(map[string]any{"func": "Rotate", "element_type": name, "n": n, "shifts_applied_in_turn": []int{-1, 1, -(n / 2), n/2 + 1, -(n - 7), n - 3, -5, 4099}}, "after the shifts the element originally at index %d is not at index %d", i, to)
+					return false
+				}
+			}
+			c.Step()
+			return true
+		}
+		ok, pv, stack := fw.Try(func() {
+			n := []int{1<<20 + 3, 2100000, 1<<21 + 5, 1<<22 + 1, 1<<23 + 7, 3000001, 1<<24 + 3, 1<<25 + 1}[c.Block]
+			switch c.Block % 3 {
+			case 0:
+				vs := make([]int, n)
+				for i := range vs {
+					vs[i] = i
+				}
+				rotate("int", n, func(k int) { slice.Rotate(vs, k) }, func(i int) int { return vs[i] })
+			case 1:
+				vs := make([]uint32, n)
+				for i := range vs {
+					vs[i] = uint32(i)
+				}
+				rotate("uint32", n, func(k int) { slice.Rotate(vs, k) }, func(i int) int { return int(vs[i]) })
+			default:
+				m := n / 8
+				vs := make([]wide, m)
+				for i := range vs {
+					vs[i].ID = i
+				}
+				rotate("64-byte struct", m, func(k int) { slice.Rotate(vs, k%m) }, func(i int) int { return vs[i].ID })
+			}
+		})
+		if !ok {
+			c.FailKind("panic", map[string]any{"func": "Rotate", "phase": "very large slices"}, "panic: %v\n%s", pv, stack)
+		}
+		c.Add("very_large_slice_rotations", 1)
+	}
+	if c.Thorough() && strconv.IntSize == 64 && c.Block < 2 && c.Begin(idx+90+c.Block) {
 		// a slice of more than 2^31 elements (2 GiB of bytes): index arithmetic
 		// narrower than 64 bits wraps here; thorough tier only (about 30 s)
 		n := clipInt(1<<31 + 17)
